@@ -164,7 +164,15 @@ func (t *Tracker) Append(p *[]byte, more ...byte) *[]byte {
 		return p
 	}
 	if t.Moving {
-		np := t.newBuf(len(*p)+len(more), len(*p)+len(more))
+		need := len(*p) + len(more)
+		capa := 32
+		for capa < need && capa < 1<<15 {
+			capa <<= 1
+		}
+		if need > 1<<15 {
+			capa = need
+		}
+		np := t.newBuf(need, capa)
 		copy(*np, *p)
 		copy((*np)[len(*p):], more)
 		t.free(p, bi)
@@ -195,6 +203,15 @@ func (t *Tracker) free(p *[]byte, bi *bufInfo) {
 	full := (*p)[:cap(*p)]
 	for i := range full {
 		full[i] = poison
+	}
+	if len(full) > 16<<10 {
+		// keep the quarantine small: a large freed buffer is replaced by a short poisoned
+		// one behind the same pointer (stale slice values still see the poisoned array)
+		small := make([]byte, 64)
+		for i := range small {
+			small[i] = poison
+		}
+		*p = small
 	}
 	t.quarantine = append(t.quarantine, bi)
 }
@@ -228,11 +245,18 @@ func (t *Tracker) scan() {
 	if t.ops&255 != 0 {
 		return
 	}
-	t.scanAll()
+	// periodic scans look at the most recently freed buffers only; Finish scans all
+	start := len(t.quarantine) - 64
+	if start < 0 {
+		start = 0
+	}
+	t.scanFrom(start)
 }
 
-func (t *Tracker) scanAll() {
-	for _, bi := range t.quarantine {
+func (t *Tracker) scanAll() { t.scanFrom(0) }
+
+func (t *Tracker) scanFrom(start int) {
+	for _, bi := range t.quarantine[start:] {
 		full := (*bi.p)[:cap(*bi.p)]
 		for i, b := range full {
 			if b != poison {
